@@ -1098,9 +1098,8 @@ Section RenderInj.
   Proof. exact (value_ind2 P Q case_C case_VStr case_VGrp case_VCls v). Qed.
 End RenderInj.
 
-Lemma c_eq_iff_render a b : c_eq a b = true <-> render a = render b.
-Proof. unfold c_eq. apply str_eqb_eq. Qed.
-
+(* __str__ is injective on containers without punctuation in tags and values (a statement about the
+   rendering; equality no longer goes through it) *)
 Lemma render_inj_clean a b : clean a = true -> clean b = true -> render a = render b -> items a = items b.
 Proof.
   intros Ca Cb H. rewrite !render_items in H.
@@ -1110,13 +1109,174 @@ Proof.
   apply Forall_forall. intros kv _. apply value_inj.
 Qed.
 
-(* on containers without punctuation in tags and values, == is equality of content *)
-Lemma eq_iff_content a b :
-  clean a = true -> clean b = true -> (c_eq a b = true <-> items a = items b).
+Lemma render_iff_clean a b :
+  clean a = true -> clean b = true -> (render a = render b <-> items a = items b).
 Proof.
-  intros Ca Cb. rewrite c_eq_iff_render. split.
-  - now apply render_inj_clean.
-  - intros H. now rewrite !render_items, H.
+  intros Ca Cb. split; [now apply render_inj_clean|]. intros H. now rewrite !render_items, H.
+Qed.
+
+(* ================================================================ equality is equality of content *)
+
+Section ContInd.
+  Context (P : cont -> Prop).
+  Context (HS : forall s, P (KStr s)) (HE : P KErr) (HK : forall t, P (KCls t)).
+  Context (HG : forall g, Forall (Forall (fun kv => P (snd kv))) g -> P (KGrp g)).
+
+  Fixpoint cont_ind2 (a : cont) : P a :=
+    match a with
+    | KStr s => HS s
+    | KErr => HE
+    | KCls t => HK t
+    | KGrp g =>
+        HG g ((fix go (g : list (list (str * cont))) : Forall (Forall (fun kv => P (snd kv))) g :=
+                 match g with
+                 | [] => Forall_nil _
+                 | l :: g' =>
+                     Forall_cons l
+                       ((fix go2 (l : list (str * cont)) : Forall (fun kv => P (snd kv)) l :=
+                           match l with
+                           | [] => Forall_nil _
+                           | kv :: l' => Forall_cons kv (cont_ind2 (snd kv)) (go2 l')
+                           end) l)
+                       (go g')
+                 end) g)
+    end.
+End ContInd.
+
+Lemma list_eqb_spec {A} (eqb : A -> A -> bool) l1 :
+  Forall (fun x => forall y, eqb x y = true <-> x = y) l1 ->
+  forall l2, list_eqb eqb l1 l2 = true <-> l1 = l2.
+Proof.
+  intros F. induction F as [|x l1 Hx F IH]; intros [|y l2]; cbn [list_eqb]; split; intros H;
+    try discriminate; try reflexivity.
+  - apply andb_true_iff in H. destruct H as [H1 H2]. apply Hx in H1. apply IH in H2. now subst.
+  - inversion H; subst. apply andb_true_iff. split; [now apply Hx|now apply IH].
+Qed.
+
+Lemma cont_eqb_eq a : forall b, cont_eqb a b = true <-> a = b.
+Proof.
+  apply (cont_ind2 (fun a => forall b, cont_eqb a b = true <-> a = b)).
+  - intros s [t|h| |t]; cbn [cont_eqb]; split; intros H; try discriminate.
+    + apply str_eqb_eq in H. now subst.
+    + inversion H. apply str_eqb_refl.
+  - intros [t|h| |t]; cbn [cont_eqb]; split; intros H; try discriminate; reflexivity.
+  - intros s [t|h| |t]; cbn [cont_eqb]; split; intros H; try discriminate.
+    + apply str_eqb_eq in H. now subst.
+    + inversion H. apply str_eqb_refl.
+  - intros g F [t|h| |t]; cbn [cont_eqb]; try (split; intros H; discriminate).
+    assert (G : list_eqb (list_eqb (fun p q => str_eqb (fst p) (fst q) && cont_eqb (snd p) (snd q))) g h = true
+                <-> g = h).
+    { apply list_eqb_spec. eapply Forall_impl; [|exact F]. intros l Fl l'.
+      apply list_eqb_spec. eapply Forall_impl; [|exact Fl]. intros [k v] Hv [k' v']. cbn [fst snd] in *.
+      rewrite andb_true_iff, str_eqb_eq, Hv. split; [intros [-> ->]; reflexivity|intros H; now inversion H]. }
+    rewrite G. split; [now intros ->|intros H; now inversion H].
+Qed.
+
+Lemma pair_eqb_eq p q : pair_eqb p q = true <-> p = q.
+Proof.
+  destruct p as [k v], q as [k' v']. unfold pair_eqb. cbn [fst snd].
+  rewrite andb_true_iff, str_eqb_eq, cont_eqb_eq. split; [intros [-> ->]; reflexivity|intros H; now inversion H].
+Qed.
+
+(* container == container, for ALL containers: exactly equality of content *)
+Lemma c_eq_iff_content a b : c_eq a b = true <-> content a = content b.
+Proof.
+  unfold c_eq. apply list_eqb_spec. apply Forall_forall. intros p _ q. apply pair_eqb_eq.
+Qed.
+
+Lemma content_items c : content c = map (fun kv => (fst kv, content_v (snd kv))) (items c).
+Proof. now destruct c. Qed.
+
+Lemma c_eq_same_items a b : items a = items b -> c_eq a b = true.
+Proof. intros H. apply c_eq_iff_content. now rewrite !content_items, H. Qed.
+
+Lemma c_eq_refl a : c_eq a a = true.
+Proof. now apply c_eq_same_items. Qed.
+
+Lemma c_eq_sym a b : c_eq a b = c_eq b a.
+Proof.
+  destruct (c_eq a b) eqn:E, (c_eq b a) eqn:F; try reflexivity.
+  - apply c_eq_iff_content in E. symmetry in E. apply c_eq_iff_content in E. congruence.
+  - apply c_eq_iff_content in F. symmetry in F. apply c_eq_iff_content in F. congruence.
+Qed.
+
+Lemma c_eq_trans a b c : c_eq a b = true -> c_eq b c = true -> c_eq a c = true.
+Proof. rewrite !c_eq_iff_content. congruence. Qed.
+
+(* equal containers have the same tags in the same order *)
+Lemma c_eq_keys a b : c_eq a b = true -> keys a = keys b.
+Proof.
+  rewrite c_eq_iff_content, !content_items. unfold keys. intros H.
+  apply (f_equal (map fst)) in H. rewrite !map_map in H. exact H.
+Qed.
+
+(* containers built from plain strings and plain FIXContainer items only (no class objects, no
+   FIXMessage inside a group): content is the items themselves *)
+Fixpoint pureb (c : container) : bool :=
+  match c with
+  | C m l => match m with None => true | Some _ => false end
+             && forallb (fun kv => pureb_v (snd kv)) l
+  end
+with pureb_v (v : value) : bool :=
+  match v with
+  | VStr _ => true
+  | VGrp g => forallb pureb g
+  | VCls _ _ => false
+  end.
+Definition pure (c : container) : bool := forallb (fun kv => pureb_v (snd kv)) (items c).
+
+Section ContentInj.
+  Let P (c1 : container) : Prop :=
+    forall c2, pureb c1 = true -> pureb c2 = true -> content c1 = content c2 -> c1 = c2.
+  Let Q (v1 : value) : Prop :=
+    forall v2, pureb_v v1 = true -> pureb_v v2 = true -> content_v v1 = content_v v2 -> v1 = v2.
+
+  Lemma content_items_inj (l1 : list (str * value)) :
+    Forall (fun kv => Q (snd kv)) l1 ->
+    forall l2 : list (str * value), forallb (fun kv => pureb_v (snd kv)) l1 = true -> forallb (fun kv => pureb_v (snd kv)) l2 = true ->
+      map (fun kv => (fst kv, content_v (snd kv))) l1 = map (fun kv => (fst kv, content_v (snd kv))) l2 ->
+      l1 = l2.
+  Proof.
+    intros F. induction F as [|[k v] l1 Hv F IH]; intros [|[k' v'] l2] P1 P2 H; cbn [map] in H;
+      try discriminate; [reflexivity|].
+    cbn [forallb fst snd] in *. apply andb_true_iff in P1, P2. destruct P1 as [Pv P1], P2 as [Pv' P2].
+    injection H as Hk Hc Hl. subst k'. rewrite (Hv v' Pv Pv' Hc), (IH l2 P1 P2 Hl). reflexivity.
+  Qed.
+
+  Lemma content_case_C m l : Forall (fun kv => Q (snd kv)) l -> P (C m l).
+  Proof.
+    intros F [m2 l2] P1 P2 H. cbn [pureb] in P1, P2. apply andb_true_iff in P1, P2.
+    destruct P1 as [M1 P1], P2 as [M2 P2]. destruct m as [?|]; [discriminate|]. destruct m2 as [?|]; [discriminate|].
+    cbn [content] in H. now rewrite (content_items_inj l F l2 P1 P2 H).
+  Qed.
+
+  Lemma content_case_VGrp g : Forall P g -> Q (VGrp g).
+  Proof.
+    intros F [s|h|k x] P1 P2 H; cbn [pureb_v content_v] in *; try discriminate.
+    injection H as H'. f_equal. revert h P2 H'.
+    induction F as [|c g Hc F IH]; intros [|d h] P2 H'; cbn [map] in H'; try discriminate; [reflexivity|].
+    cbn [forallb] in P1, P2. apply andb_true_iff in P1, P2. destruct P1 as [Pc P1], P2 as [Pd P2].
+    injection H' as Hcd Hl. rewrite (Hc d Pc Pd Hcd), (IH P1 h P2 Hl). reflexivity.
+  Qed.
+
+  Lemma content_case_VStr s : Q (VStr s).
+  Proof.
+    intros [t|h|k x] _ P2 H; cbn [pureb_v content_v] in *; try discriminate.
+    now inversion H.
+  Qed.
+
+  Lemma content_case_VCls k x : Q (VCls k x).
+  Proof. intros v2 P1. discriminate P1. Qed.
+
+  Lemma content_value_inj v : Q v.
+  Proof. exact (value_ind2 P Q content_case_C content_case_VStr content_case_VGrp content_case_VCls v). Qed.
+End ContentInj.
+
+Lemma c_eq_iff_items_pure a b : pure a = true -> pure b = true -> (c_eq a b = true <-> items a = items b).
+Proof.
+  intros Pa Pb. split; [|apply c_eq_same_items].
+  rewrite c_eq_iff_content, !content_items. apply content_items_inj; [|exact Pa|exact Pb].
+  apply Forall_forall. intros kv _. apply content_value_inj.
 Qed.
 
 Lemma clean_tag_z_to_dec z : clean_tag (z_to_dec z) = true.
@@ -1565,18 +1725,26 @@ Qed.
 Lemma int_tags_distinct a b : tag_str (TInt a) = tag_str (TInt b) -> a = b.
 Proof. apply z_to_dec_inj. Qed.
 
-(* ================================================================ what does not hold (DESIGN.md ledger D18) *)
+(* ================================================================ the text collisions of D18 are gone *)
 
 Definition w_a : container := C None [([49], VStr [97; 124; 50; 61; 98])].          (* {1: "a|2=b"} *)
 Definition w_b : container := C None [([49], VStr [97]); ([50], VStr [98])].        (* {1: "a", 2: "b"} *)
+Definition w_c : container := C None [([49], VStr [49; 61; 62; 91; 93])].           (* {1: "1=>[]"} *)
+Definition w_d : container := C None [([49], VGrp [empty])].                        (* {1: [{}]} *)
+Definition w_e : container := C None [([50], VStr [98]); ([49], VStr [97])].        (* {2: "b", 1: "a"} *)
+Definition w_err1 : container := C None [([49], VCls KTagNotFound [])].             (* {1: TagNotFoundError} *)
+Definition w_err2 : container := C None [([49], VCls KRepeating [])].               (* {1: RepeatingTagError} *)
+Definition w_errs : container := C None [([49], VStr ERR)].                         (* {1: "#err#"} *)
+Definition w_m1 : container := C None [([55; 56], VGrp [C (Some [68]) [([49], VStr [97])]])].  (* {78: [FIXMessage("D", {1: "a"})]} *)
+Definition w_m2 : container := C (Some [65]) [([55; 56], VGrp [C None [([49], VStr [97])]])].  (* FIXMessage("A", {78: [{1: "a"}]}) *)
 
-Lemma eq_collision : exists a b, c_eq a b = true /\ items a <> items b.
-Proof. exists w_a, w_b. split; [vm_compute; reflexivity|discriminate]. Qed.
-
-Lemma eq_content_full_refuted : ~ (forall a b, c_eq a b = true <-> items a = items b).
-Proof.
-  intros H. destruct eq_collision as (a & b & E & N). apply N. now apply H.
-Qed.
+Lemma eq_no_collision :
+  render w_a = render w_b /\ c_eq w_a w_b = false
+  /\ render w_c = render w_d /\ c_eq w_c w_d = false
+  /\ c_eq w_b w_e = false
+  /\ render w_err1 = render w_errs /\ c_eq w_err1 w_errs = false /\ c_eq w_err1 w_err2 = true
+  /\ c_eq w_m1 w_m2 = true.
+Proof. repeat split; vm_compute; reflexivity. Qed.
 
 (* ================================================================ the former D18 witnesses, repaired *)
 
